@@ -36,8 +36,29 @@ func c07GenPool(rng *Rng, n int, tag string) []c07Def {
 	var recs, unions, funs []int // indices
 	for i := 0; i < n; i++ {
 		id := fmt.Sprintf("%s%d", tag, i)
-		k := rng.Intn(10)
+		k := rng.Intn(12)
 		switch {
+		case k == 10 && i+2 < n:
+			// twin records: identical field names, so an untyped literal resolves by name order
+			// (first by name); the literal-using function refers to BOTH twins
+			a, b := "Tw"+id+"z", "Tw"+id+"a"
+			if rng.Bool() {
+				a, b = b, a
+			}
+			ds = append(ds, c07Def{Name: a, Kind: "type", Text: fmt.Sprintf("type %s = {TX%s: int; TY%s: int}\n", a, id, id)})
+			ds = append(ds, c07Def{Name: b, Kind: "type", Text: fmt.Sprintf("type %s = {TX%s: int; TY%s: int}\n", b, id, id)})
+			ds = append(ds, c07Def{Name: "fn" + id, Kind: "let", Refs: []string{a, b},
+				Text: fmt.Sprintf("let fn%s (a:int) =\n  {TX%s=a; TY%s=%d}\n", id, id, id, i)})
+			funs = append(funs, len(ds)-1)
+			i += 2
+		case k == 11 && i+1 < n:
+			// a type group with forward references, and a function over it
+			ds = append(ds, c07Def{Name: "Gd" + id, Kind: "type",
+				Text: fmt.Sprintf("type Gd%s = {Root: Ge%s; Cnt: int}\nand Ge%s = {Tag: string}\n", id, id, id)})
+			ds = append(ds, c07Def{Name: "fn" + id, Kind: "let", Refs: []string{"Gd" + id},
+				Text: fmt.Sprintf("let fn%s (d:Gd%s) =\n  d.Root.Tag\n", id, id)})
+			funs = append(funs, len(ds)-1)
+			i++
 		case k < 2 || len(recs) == 0 && i == 0:
 			ds = append(ds, c07Def{Name: "Rc" + id, Kind: "type", Text: fmt.Sprintf("type Rc%s = {X%s: int; Name%s: string}\n", id, id, id)})
 			recs = append(recs, i)
@@ -437,12 +458,19 @@ func c07Histories(rng *Rng, base, extra []c07Def, n int) []*c07History {
 				}
 				// an unrelated definition may go anywhere after its own references
 				pos := 0
+				found := 0
 				for i, d := range seq {
 					for _, r := range e.Refs {
-						if d.Name == r && i+1 > pos {
-							pos = i + 1
+						if d.Name == r {
+							found++
+							if i+1 > pos {
+								pos = i + 1
+							}
 						}
 					}
+				}
+				if found < len(e.Refs) {
+					continue // one of its references was not inserted
 				}
 				at := pos + rng.Intn(len(seq)-pos+1)
 				seq = append(seq[:at], append([]c07Def{e}, seq[at:]...)...)
@@ -492,6 +520,22 @@ func runC07(c *Ctx) {
 	for i := range jobs {
 		b := c07GenPool(rng, 8+rng.Intn(9), "b")
 		e := c07GenPool(rng, 4, "e")
+		for di, d := range b {
+			switch {
+			case strings.HasPrefix(d.Name, "Tw") && strings.HasSuffix(d.Name, "z") || strings.HasPrefix(d.Name, "Tw") && strings.HasSuffix(d.Name, "a"):
+				// an unrelated user of the same field names that refers to THIS twin only: it may be
+				// inserted between the two twins (its own text is not compared)
+				id := strings.TrimSuffix(strings.TrimSuffix(strings.TrimPrefix(d.Name, "Tw"), "z"), "a")
+				e = append(e, c07Def{Name: fmt.Sprintf("fnx%d_%d", i, di), Kind: "let", Refs: []string{d.Name},
+					Text: fmt.Sprintf("let fnx%d_%d (a:int) =\n  {TX%s=a; TY%s=7}\n", i, di, id, id)})
+			case strings.HasPrefix(d.Name, "Gd"):
+				// an unrelated package_info whose type parameter happens to be called like the
+				// forward-referenced type of the group
+				id := strings.TrimPrefix(d.Name, "Gd")
+				e = append(e, c07Def{Name: fmt.Sprintf("pk%d_%d", i, di), Kind: "type",
+					Text: fmt.Sprintf("package_info _ =\n  let pickFirst%d_%d<Ge%s>: []Ge%s->Ge%s\n", i, di, id, id, id)})
+			}
+		}
 		jobs[i] = job{b, e, c07Histories(rng, b, e, nhist)}
 		// one forward-reference history per base, when there is a reference to break
 		for di, d := range b {
@@ -501,6 +545,17 @@ func runC07(c *Ctx) {
 				break
 			}
 		}
+	}
+	{
+		// one long base: 56 type groups with two forward references each (the forward-declaration
+		// type variables are per type group: the total over a file / an invocation must not matter)
+		var b []c07Def
+		for k := 0; k < 56; k++ {
+			b = append(b, c07Def{Name: fmt.Sprintf("Nd%d", k), Kind: "type",
+				Text: fmt.Sprintf("type Nd%d = {Next: Lf%d; Alt: Lf%d}\nand Lf%d = {V%d: int}\n", k, k, k, k, k)})
+		}
+		b = append(b, c07Def{Name: "fnlong", Kind: "let", Refs: []string{"Nd55"}, Text: "let fnlong (n:Nd55) =\n  n.Next.V55\n"})
+		jobs = append(jobs, job{b, nil, c07Histories(rng, b, nil, 3)})
 	}
 	if c.Replay != "" {
 		b, hs := c07LoadReplay(c.Replay)
